@@ -102,7 +102,16 @@ pub async fn accept_loop<F>(
 {
     add_thread_local_log_tag("thread_name", "accept_loop");
     loop {
-        let token = token_set.async_wait_token().await;
+        // Stop waiting for a token when the permit is revoked.
+        // Otherwise, a server with all tokens in use by idle connections never stops.
+        let opt_token = FutureExt::or(async { Some(token_set.async_wait_token().await) }, async {
+            (&mut permit).await;
+            None
+        })
+        .await;
+        let Some(token) = opt_token else {
+            return;
+        };
         if permit.is_revoked() {
             return;
         }
